@@ -298,6 +298,45 @@ Theorem clump_sync_within_udp_limit : forall nc es cs,
     zlen d <= MAX_UDP.
 Proof. exact clump_sync_within_udp. Qed.
 
+(* SynthDef._do_send: the prediction is made for the very message that is sent -- address,
+   definition bytes AND completion message ([comp] is None, a message- or bundle-shaped list):
+   when '/d_recv' is chosen that message encodes within the UDP limit.  (That the real code
+   predicts for the message it sends is what the use-site monitor of harness/props/C06.py
+   checks on the datagrams actually sent.) *)
+Definition d_recv_addr : bytes := [47; 100; 95; 114; 101; 99; 118].      (* '/d_recv' *)
+Theorem do_send_within_udp : forall nc def comp d n,
+  floats4 comp = true ->
+  build_pkt nc (AList [AStr d_recv_addr; ABytes def; comp]) = Ok d ->
+  calc_pkt true (AList [AStr d_recv_addr; ABytes def; comp]) = Ok n ->
+  use_d_recv n = true -> zlen d <= MAX_UDP.
+Proof.
+  intros nc def comp d n Hwf Hb Hc Hu.
+  apply (send_path_choice nc (AList [AStr d_recv_addr; ABytes def; comp]) d n); try assumption.
+  rewrite floats4_list. cbn [forallb floats4]. rewrite Hwf. reflexivity.
+Qed.
+
+(* NetAddr.send_clumped_bundles (hence every BundleNetAddr context): the datagrams it sends
+   carry every element once and in order and each is within the UDP limit, provided every
+   single element is (an element above the clump size 8192 travels alone) *)
+Theorem send_clumped_within_udp : forall nc es cs,
+  forallb floats4 es = true ->
+  send_clumped_plan true es = Ok cs ->
+  (forall e s, In e es -> calc_elem true e = Ok s -> 16 + (s + 4) <= MAX_UDP) ->
+  concat cs = es /\
+  forall c, In c cs -> forall lat tag d,
+    build_pkt nc (AList (ATime lat tag :: c)) = Ok d -> zlen d <= MAX_UDP.
+Proof. exact send_clumped_within_udp_main. Qed.
+
+(* NetAddr.sync(elements): the same with '/sync' appended to every datagram *)
+Theorem sync_within_udp : forall nc es cs,
+  forallb floats4 es = true ->
+  sync_plan true es = Ok cs ->
+  (forall e s, In e es -> calc_elem true e = Ok s -> 16 + (s + 4) + 20 <= MAX_UDP) ->
+  concat cs = es /\
+  forall c, In c cs -> forall lat tag id d,
+    build_pkt nc (AList (ATime lat tag :: c ++ [sync_msg id])) = Ok d -> zlen d <= MAX_UDP.
+Proof. exact sync_within_udp_main. Qed.
+
 (* F2 on the snapshot: the element size prefixes are not counted, a clump reaches the size
    although every element alone is far below it *)
 Theorem clump_within_limit_snapshot_refuted : exists size es cs c d,
@@ -368,3 +407,5 @@ Print Assumptions clump_sync_within_udp_limit.
 Print Assumptions osc10_agrees.
 Print Assumptions decode_unique.
 Print Assumptions size_defined.
+Print Assumptions send_clumped_within_udp.
+Print Assumptions sync_within_udp.
